@@ -558,4 +558,470 @@ theorem vonLast_split (pre last : List Str) (hl : last ≠ [])
   · rfl
 
 
+/-! ### the text of a name -/
+
+def vlText (p : Person) : Str := joinWith [' '] (p.prelast ++ p.last)
+def jrText (p : Person) : Str := joinWith [' '] p.lineage
+def fmText (p : Person) : Str := joinWith [' '] (p.first ++ p.middle)
+
+/-- the comma-separated chunks of the written name -/
+def chunksOf (p : Person) : List Str :=
+  [vlText p] ++ (if p.lineage ≠ [] then [' ' :: jrText p] else []) ++
+  (if p.first ≠ [] then [' ' :: fmText p] else if keepsEmptyFirst p then [[]] else [])
+
+theorem joinNonEmpty_pair {a b : List Str} (ha : ∀ t ∈ a, t ≠ []) (hb : ∀ t ∈ b, t ≠ []) :
+    joinNonEmpty [partText a, partText b] = joinWith [' '] (a ++ b) := by
+  unfold joinNonEmpty partText
+  by_cases h1 : a = []
+  · subst h1
+    by_cases h2 : b = []
+    · subst h2; rfl
+    · have : joinWith [' '] b ≠ [] := fun h => h2 ((joinWith_eq_nil_iff hb).1 h)
+      simp [List.filter, joinWith, this]
+  · have h1' : joinWith [' '] a ≠ [] := fun h => h1 ((joinWith_eq_nil_iff ha).1 h)
+    by_cases h2 : b = []
+    · subst h2
+      simp [List.filter, joinWith, h1']
+    · have h2' : joinWith [' '] b ≠ [] := fun h => h2 ((joinWith_eq_nil_iff hb).1 h)
+      rw [joinWith_append a b h1 h2]
+      simp [List.filter, joinWith, h1', h2']
+
+theorem formatName_chunks {p : Person} (hg : PersonGood p) :
+    formatName p = joinWith [','] (chunksOf p) := by
+  obtain ⟨m1, m2, m3, m4, m5⟩ := hg.mem
+  have n1 : ∀ t ∈ p.first, t ≠ [] := fun t h => (m1 t h).ne_nil
+  have n2 : ∀ t ∈ p.middle, t ≠ [] := fun t h => (m2 t h).ne_nil
+  have n3 : ∀ t ∈ p.prelast, t ≠ [] := fun t h => (m3 t h).ne_nil
+  have n4 : ∀ t ∈ p.last, t ≠ [] := fun t h => (m4 t h).ne_nil
+  have n5 : ∀ t ∈ p.lineage, t ≠ [] := fun t h => (m5 t h).ne_nil
+  have hlast : partText p.last ≠ [] := fun h => hg.last_ne ((joinWith_eq_nil_iff n4).1 h)
+  have hlin : partText p.lineage = [] ↔ p.lineage = [] := joinWith_eq_nil_iff n5
+  have hfirst : partText p.first = [] ↔ p.first = [] := joinWith_eq_nil_iff n1
+  have hmid : partText p.middle = [] ↔ p.middle = [] := joinWith_eq_nil_iff n2
+  unfold formatName chunksOf
+  simp only [hlast, ne_eq, not_false_eq_true, if_true, joinNonEmpty_pair n3 n4, joinNonEmpty_pair n1 n2]
+  by_cases hf : p.first = []
+  · have hm := hg.first_mid hf
+    have c1 : ¬ (¬ partText p.first = [] ∨ ¬ partText p.middle = []) := by
+      rw [hfirst, hmid]; simp [hf, hm]
+    rw [if_neg c1]
+    by_cases hl : p.lineage = []
+    · have c2 : partText p.lineage = [] := hlin.2 hl
+      simp only [not_true_eq_false, if_false, hl, hf]
+      by_cases hk : keepsEmptyFirst p = true
+      · simp [hk, joinWith, vlText, partText]
+      · simp [hk, joinWith, vlText, partText]
+    · have c2 : ¬ partText p.lineage = [] := fun h => hl (hlin.1 h)
+      have hk : keepsEmptyFirst p = true := by simp [keepsEmptyFirst, hf, hm, hl]
+      simp only [c2, not_false_eq_true, if_true, hl, hf, not_true_eq_false, if_false, hk]
+      simp [joinWith, vlText, jrText, partText]
+  · have c1 : (¬ partText p.first = [] ∨ ¬ partText p.middle = []) := Or.inl (fun h => hf (hfirst.1 h))
+    have hk : keepsEmptyFirst p = false := by simp [keepsEmptyFirst, hf]
+    rw [if_pos c1]
+    simp only [hk, Bool.false_eq_true, if_false, hf, not_false_eq_true, if_true]
+    by_cases hl : p.lineage = []
+    · have c2 : partText p.lineage = [] := hlin.2 hl
+      simp only [not_true_eq_false, if_false, hl]
+      simp [joinWith, vlText, fmText, partText]
+    · have c2 : ¬ partText p.lineage = [] := fun h => hl (hlin.1 h)
+      simp only [c2, not_false_eq_true, if_true, hl]
+      simp [joinWith, vlText, jrText, fmText, partText]
+
+
+theorem getLast?_append_ne {α} (a b : List α) (h : b ≠ []) : (a ++ b).getLast? = b.getLast? := by
+  rw [List.getLast?_append]
+  cases hb : b.getLast? with
+  | none => simp [List.getLast?_eq_none_iff] at hb; exact absurd hb h
+  | some x => simp
+
+theorem head?_joinWith {sep t : Str} {ts : List Str} (ht : t ≠ []) :
+    (joinWith sep (t :: ts)).head? = t.head? := by
+  cases t with
+  | nil => exact absurd rfl ht
+  | cons c r => cases ts <;> simp [joinWith]
+
+theorem getLast?_joinWith {sep : Str} : ∀ (ts : List Str) (t : Str), (∀ x ∈ t :: ts, x ≠ []) →
+    (joinWith sep (t :: ts)).getLast? = ((t :: ts).getLast (by simp)).getLast? := by
+  intro ts
+  induction ts with
+  | nil => intro t _; simp [joinWith]
+  | cons t2 ts ih =>
+    intro t h
+    have h2 : ∀ x ∈ t2 :: ts, x ≠ [] := fun x hx => h x (by simp [hx])
+    have hne : joinWith sep (t2 :: ts) ≠ [] := joinWith_ne_nil (h2 t2 (by simp))
+    simp only [joinWith]
+    rw [getLast?_append_ne _ _ hne, ih t2 h2]
+    simp
+
+theorem strip_join {ts : List Str} (hne : ts ≠ []) (hg : ∀ t ∈ ts, TokGood t) :
+    strip (joinWith [' '] ts) = joinWith [' '] ts := by
+  cases ts with
+  | nil => exact absurd rfl hne
+  | cons t ts =>
+    apply strip_eq_self
+    · intro c hc
+      rw [head?_joinWith (hg t (by simp)).ne_nil] at hc
+      have ht := hg t (by simp)
+      cases t with
+      | nil => simp at hc
+      | cons a r =>
+        simp only [List.head?_cons, Option.some.injEq] at hc; subst hc; exact lvl0Ok_head ht.lvl
+    · intro c hc
+      rw [getLast?_joinWith ts t (fun x hx => (hg x hx).ne_nil)] at hc
+      have hl := hg ((t :: ts).getLast (by simp)) (List.getLast_mem _)
+      exact lvl0Ok_last _ 0 false hl.lvl hl.sat c hc
+
+theorem strip_cons_ws {c : Char} (X : Str) (hw : isWs c = true) : strip (c :: X) = strip X := by
+  simp [strip, lstrip, List.dropWhile, hw]
+
+theorem chunk_join {ts : List Str} (hg : ∀ t ∈ ts, TokGood t) : Chunk (joinWith [' '] ts) :=
+  ⟨noComma0_join_space ts hg, depthAfter_join (by simp) ts (fun t ht => (hg t ht).bal)⟩
+
+theorem chunk_space_join {ts : List Str} (hg : ∀ t ∈ ts, TokGood t) : Chunk (' ' :: joinWith [' '] ts) := by
+  obtain ⟨h1, h2⟩ := chunk_join hg
+  exact ⟨by simpa [noComma0] using h1, by simpa [depthAfter] using h2⟩
+
+/-- the comma parts `_parse_string` sees -/
+def partsOf (p : Person) : List Str :=
+  [vlText p] ++ (if p.lineage ≠ [] then [jrText p] else []) ++
+  (if p.first ≠ [] then [fmText p] else if keepsEmptyFirst p then [[]] else [])
+
+theorem PersonGood.vl {p : Person} (hg : PersonGood p) : ∀ t ∈ p.prelast ++ p.last, TokGood t := by
+  intro t ht; apply hg.toks; simp only [List.mem_append] at ht; rcases ht with h | h <;> simp [personTokens, h]
+
+theorem PersonGood.fm {p : Person} (hg : PersonGood p) : ∀ t ∈ p.first ++ p.middle, TokGood t := by
+  intro t ht; apply hg.toks; simp only [List.mem_append] at ht; rcases ht with h | h <;> simp [personTokens, h]
+
+theorem PersonGood.vl_ne {p : Person} (hg : PersonGood p) : vlText p ≠ [] := by
+  intro h
+  have := (joinWith_eq_nil_iff (fun t ht => (hg.vl t ht).ne_nil)).1 h
+  simp at this
+  exact hg.last_ne this.2
+
+theorem splitTex_comma_format {p : Person} (hg : PersonGood p) :
+    splitTex .comma (formatName p) = partsOf p := by
+  have hch : ∀ x ∈ chunksOf p, Chunk x := by
+    intro x hx
+    simp only [chunksOf, List.mem_append, List.mem_singleton] at hx
+    rcases hx with (rfl | hx) | hx
+    · exact chunk_join hg.vl
+    · split at hx
+      · simp only [List.mem_singleton] at hx; subst hx; exact chunk_space_join hg.mem.2.2.2.2
+      · simp at hx
+    · split at hx
+      · simp only [List.mem_singleton] at hx; subst hx; exact chunk_space_join hg.fm
+      · split at hx
+        · simp only [List.mem_singleton] at hx; subst hx; exact ⟨rfl, rfl⟩
+        · simp at hx
+  have hne : chunksOf p ≠ [] := by simp [chunksOf]
+  have hs : joinWith [','] (chunksOf p) ≠ [] := by
+    unfold chunksOf
+    simp only [List.cons_append]
+    exact joinWith_ne_nil hg.vl_ne
+  rw [formatName_chunks hg, splitTex_comma_chunks _ hne hch hs]
+  unfold chunksOf partsOf
+  have s1 : strip (vlText p) = vlText p := strip_join (by
+    intro h; simp at h; exact hg.last_ne h.2) hg.vl
+  simp only [List.map_append, List.map_cons, List.map_nil, s1]
+  congr 1
+  · congr 1
+    split
+    · rename_i hl
+      simp only [List.map_cons, List.map_nil, strip_cons_ws _ (show isWs ' ' = true by decide)]
+      rw [show strip (jrText p) = jrText p from strip_join hl hg.mem.2.2.2.2]
+    · rfl
+  · split
+    · rename_i hf
+      simp only [List.map_cons, List.map_nil, strip_cons_ws _ (show isWs ' ' = true by decide)]
+      rw [show strip (fmText p) = fmText p from strip_join (by simp [hf]) hg.fm]
+    · split
+      · rfl
+      · rfl
+
+
+/-! ### reading the written name back -/
+
+theorem parseName_spec {name : Str} (hne : name ≠ [])
+    (hk : ∀ t ∈ Spec.caseTokens name, Spec.caseKnown t = true) :
+    parseName name = .ok (Spec.split name) := by
+  cases h : parseName name with
+  | error e =>
+    obtain ⟨_, t, ht, _, hc⟩ := parseName_error hne h
+    rw [hk t ht] at hc; cases hc
+  | ok r =>
+    rw [split_eq, parseName_ok h (fun t ht b hb => isVonName_ok hb (hk t ht))]
+
+theorem TokGood.caseKnown {t : Str} (h : TokGood t) : Spec.caseKnown t = true :=
+  caseKnown_of_scan (litScan_scan h.lit)
+
+theorem person_eq {p : Person} {a b c d e : List Str} (h1 : a = p.first) (h2 : b = p.middle)
+    (h3 : c = p.prelast) (h4 : d = p.last) (h5 : e = p.lineage) :
+    ({ first := a, middle := b, prelast := c, last := d, lineage := e } : Person) = p := by
+  cases p; simp_all
+
+theorem PersonGood.take_first {p : Person} (hg : PersonGood p) :
+    (p.first ++ p.middle).take 1 = p.first ∧ (p.first ++ p.middle).drop 1 = p.middle := by
+  have h1 := hg.first_le
+  have h2 := hg.first_mid
+  cases hf : p.first with
+  | nil => rw [h2 hf]; simp
+  | cons a r =>
+    rw [hf] at h1
+    cases r with
+    | nil => simp
+    | cons b r2 => simp at h1
+
+theorem PersonGood.vonLast {p : Person} (hg : PersonGood p) :
+    Spec.vonLast (p.prelast ++ p.last) = (p.prelast, p.last) :=
+  vonLast_split p.prelast p.last hg.last_ne hg.last_novon hg.prelast_von
+
+theorem format_ne_nil {p : Person} (hg : PersonGood p) : formatName p ≠ [] := by
+  rw [formatName_chunks hg]
+  unfold chunksOf
+  simp only [List.cons_append]
+  exact joinWith_ne_nil hg.vl_ne
+
+theorem splitTex_space_nil : splitTex .space [] = [] := by decide
+
+theorem partsOf_cases {p : Person} (hg : PersonGood p) :
+    (p.lineage = [] ∧ p.first = [] ∧ partsOf p = [vlText p] ∧ formatName p = vlText p ∧ keepsEmptyFirst p = false) ∨
+    (p.lineage = [] ∧ p.first = [] ∧ partsOf p = [vlText p, []]) ∨
+    (p.lineage = [] ∧ p.first ≠ [] ∧ partsOf p = [vlText p, fmText p]) ∨
+    (p.lineage ≠ [] ∧ p.first = [] ∧ partsOf p = [vlText p, jrText p, []]) ∨
+    (p.lineage ≠ [] ∧ p.first ≠ [] ∧ partsOf p = [vlText p, jrText p, fmText p]) := by
+  by_cases hl : p.lineage = []
+  · by_cases hf : p.first = []
+    · by_cases hkp : keepsEmptyFirst p = true
+      · right; left; exact ⟨hl, hf, by simp [partsOf, hl, hf, hkp]⟩
+      · left
+        refine ⟨hl, hf, by simp [partsOf, hl, hf, hkp], ?_, by simpa using hkp⟩
+        rw [formatName_chunks hg]; simp [chunksOf, hl, hf, hkp, joinWith]
+    · right; right; left; exact ⟨hl, hf, by simp [partsOf, hl, hf]⟩
+  · by_cases hf : p.first = []
+    · have hkp : keepsEmptyFirst p = true := by simp [keepsEmptyFirst, hf, hg.first_mid hf, hl]
+      right; right; right; left; exact ⟨hl, hf, by simp [partsOf, hl, hf, hkp]⟩
+    · right; right; right; right; exact ⟨hl, hf, by simp [partsOf, hl, hf]⟩
+
+theorem parseName_format {p : Person} (hg : PersonGood p) :
+    parseName (formatName p) = .ok (p, false) := by
+  have hc := splitTex_comma_format hg
+  have hvl : splitTex .space (vlText p) = p.prelast ++ p.last := splitTex_space_join _ hg.vl
+  have hjr : splitTex .space (jrText p) = p.lineage := splitTex_space_join _ hg.mem.2.2.2.2
+  have hfm : splitTex .space (fmText p) = p.first ++ p.middle := splitTex_space_join _ hg.fm
+  have hvon := hg.vonLast
+  obtain ⟨ht1, ht2⟩ := hg.take_first
+  have hk : ∀ t ∈ Spec.caseTokens (formatName p), Spec.caseKnown t = true := by
+    intro t ht
+    unfold Spec.caseTokens at ht
+    rw [hc] at ht
+    have hmem : t ∈ p.prelast ++ p.last := by
+      rcases partsOf_cases hg with ⟨_, _, hp, hfn, _⟩ | ⟨_, _, hp⟩ | ⟨_, _, hp⟩ | ⟨_, _, hp⟩ | ⟨_, _, hp⟩ <;>
+        rw [hp] at ht <;> simp only [] at ht
+      · rw [hfn, hvl] at ht; exact ht
+      all_goals (rw [hvl] at ht; exact Names.mem_of_mem_dropLast ht)
+    exact (hg.vl t hmem).caseKnown
+  rw [parseName_spec (format_ne_nil hg) hk]
+  congr 1
+  unfold Spec.split
+  rw [hc]
+  rcases partsOf_cases hg with ⟨hl, hf, hp, hfn, hkp⟩ | ⟨hl, hf, hp⟩ | ⟨hl, hf, hp⟩ | ⟨hl, hf, hp⟩ | ⟨hl, hf, hp⟩ <;>
+    rw [hp] <;> simp only [List.length_cons, List.length_nil, joinWith]
+  · -- one part: "von Last" read in the "First von Last" form
+    rw [hfn, hvl]
+    have hm := hg.first_mid hf
+    have hlen : (p.prelast ++ p.last).length ≤ 1 ∨ startsLower (p.prelast ++ p.last) = true := by
+      simp only [keepsEmptyFirst, hf, hm, hl, ne_eq, not_true_eq_false, or_self, if_false,
+        Bool.and_eq_false_iff, decide_eq_false_iff_not, Bool.not_eq_false', gt_iff_lt, Nat.not_lt] at hkp
+      exact hkp
+    rcases hlen with hlen | hlow
+    · -- a single token
+      have hpl : p.prelast = [] ∧ ∃ t, p.last = [t] := by
+        have hne := hg.last_ne
+        simp only [List.length_append] at hlen
+        cases hlast : p.last with
+        | nil => exact absurd hlast hne
+        | cons t r =>
+          rw [hlast] at hlen
+          simp only [List.length_cons] at hlen
+          have hr : r = [] := List.eq_nil_of_length_eq_zero (by omega)
+          have hp0 : p.prelast = [] := List.eq_nil_of_length_eq_zero (by omega)
+          exact ⟨hp0, t, by rw [hr]⟩
+      obtain ⟨hp0, t, hlt⟩ := hpl
+      rw [hp0, hlt]
+      simp only [List.nil_append, List.findIdx?_cons, List.findIdx?_nil]
+      by_cases hv : isLow t = true
+      · simp only [hv, if_true]
+        refine Prod.ext (person_eq ?_ ?_ ?_ ?_ hl.symm) (by simp)
+        · simp [hf]
+        · simp [hm]
+        · simp [vonLast_eq, vonLastWith_short, hp0]
+        · simp [vonLast_eq, vonLastWith_short, hlt]
+      · simp only [hv, Bool.false_eq_true, if_false, Option.map_none]
+        refine Prod.ext (person_eq ?_ ?_ hp0.symm ?_ hl.symm) (by simp)
+        · simp [hf]
+        · simp [hm]
+        · simp [hlt]
+    · -- the first token starts with a lower-case letter: it is a von token
+      obtain ⟨c, r, rest, hT, hc⟩ : ∃ c r rest, p.prelast ++ p.last = (c :: r) :: rest ∧ isLowerN c = true := by
+        unfold startsLower at hlow
+        split at hlow
+        · rename_i c r rest heq; exact ⟨c, r, rest, heq, hlow⟩
+        · cases hlow
+      have ht0 : TokGood (c :: r) := hg.vl _ (by rw [hT]; simp)
+      have hu : isUpperN c = false := by
+        cases hu : isUpperN c with
+        | false => rfl
+        | true => rw [upper_lower_disjoint hu] at hc; cases hc
+      have hv : isLow (c :: r) = true := isLow_lower_first hu hc (litScan_scan ht0.lit)
+      have hidx : List.findIdx? isLow (p.prelast ++ p.last) = some 0 := by
+        rw [hT]; simp [List.findIdx?_cons, hv]
+      rw [hidx]
+      simp only [List.take_zero, List.drop_zero, hvon]
+      exact Prod.ext (person_eq (by simp [hf]) (by simp [hm]) rfl rfl hl.symm) (by simp)
+  · rw [hvl, hvon, splitTex_space_nil]
+    exact Prod.ext (person_eq (by simp [hf]) (by simp [hg.first_mid hf]) rfl rfl hl.symm) (by simp)
+  · rw [hvl, hvon, hfm, ht1, ht2]
+    exact Prod.ext (person_eq rfl rfl rfl rfl hl.symm) (by simp)
+  · rw [hvl, hvon, hjr, splitTex_space_nil]
+    exact Prod.ext (person_eq (by simp [hf]) (by simp [hg.first_mid hf]) rfl rfl rfl) (by simp)
+  · rw [hvl, hvon, hfm, hjr, ht1, ht2]
+    exact Prod.ext (person_eq rfl rfl rfl rfl rfl) (by simp)
+
+
+/-! ### `Person(text)`, `str(person)`, the five part texts -/
+
+/-- what follows the von-Last text in the written name -/
+def tailText (p : Person) : Str :=
+  (if p.lineage ≠ [] then ", ".toList ++ jrText p else []) ++
+  (if p.first ≠ [] then ", ".toList ++ fmText p else if keepsEmptyFirst p then [','] else [])
+
+theorem formatName_forms {p : Person} (hg : PersonGood p) : formatName p = vlText p ++ tailText p := by
+  rw [formatName_chunks hg]
+  unfold chunksOf tailText
+  by_cases hl : p.lineage = [] <;> by_cases hf : p.first = [] <;> by_cases hkp : keepsEmptyFirst p = true <;>
+    simp [hl, hf, hkp, joinWith]
+
+theorem join_head_nws {ts : List Str} (hg : ∀ t ∈ ts, TokGood t) :
+    ∀ c, (joinWith [' '] ts).head? = some c → isWs c = false := by
+  intro c hc
+  cases ts with
+  | nil => simp [joinWith] at hc
+  | cons t ts =>
+    rw [head?_joinWith (hg t (by simp)).ne_nil] at hc
+    have ht := hg t (by simp)
+    cases t with
+    | nil => simp at hc
+    | cons a r =>
+      simp only [List.head?_cons, Option.some.injEq] at hc; subst hc; exact lvl0Ok_head ht.lvl
+
+theorem join_last_nws {ts : List Str} (hg : ∀ t ∈ ts, TokGood t) :
+    ∀ c, (joinWith [' '] ts).getLast? = some c → isWs c = false := by
+  intro c hc
+  cases ts with
+  | nil => simp [joinWith] at hc
+  | cons t ts =>
+    rw [getLast?_joinWith ts t (fun x hx => (hg x hx).ne_nil)] at hc
+    have hl := hg ((t :: ts).getLast (by simp)) (List.getLast_mem _)
+    exact lvl0Ok_last _ 0 false hl.lvl hl.sat c hc
+
+theorem tail_last_nws {p : Person} (hg : PersonGood p) (hne : tailText p ≠ []) :
+    ∀ c, (tailText p).getLast? = some c → isWs c = false := by
+  intro c hc
+  unfold tailText at hc hne
+  by_cases hf : p.first = []
+  · by_cases hkp : keepsEmptyFirst p = true
+    · simp only [hf, hkp, ne_eq, not_true_eq_false, if_false, if_true] at hc
+      rw [getLast?_append_ne _ _ (by simp)] at hc
+      simp only [List.getLast?_singleton, Option.some.injEq] at hc
+      subst hc; decide
+    · simp only [hf, hkp, ne_eq, not_true_eq_false, if_false, Bool.false_eq_true, List.append_nil] at hc hne
+      -- no first name, nothing kept: then there is no Jr part either
+      have hl : p.lineage = [] := by
+        by_contra hl
+        apply hkp
+        simp [keepsEmptyFirst, hf, hg.first_mid hf, hl]
+      simp [hl] at hne
+  · have hfm : fmText p ≠ [] := by
+      intro h
+      have := (joinWith_eq_nil_iff (fun t ht => (hg.fm t ht).ne_nil)).1 h
+      simp at this; exact hf this.1
+    simp only [hf, ne_eq, not_false_eq_true, if_true] at hc
+    rw [getLast?_append_ne _ _ (by simp), getLast?_append_ne _ _ hfm] at hc
+    exact join_last_nws hg.fm c hc
+
+theorem strip_format {p : Person} (hg : PersonGood p) : strip (formatName p) = formatName p := by
+  rw [formatName_forms hg]
+  apply strip_eq_self
+  · intro c hc
+    have hv := hg.vl_ne
+    cases hvl : vlText p with
+    | nil => exact absurd hvl hv
+    | cons a r =>
+      rw [hvl] at hc
+      simp only [List.cons_append, List.head?_cons, Option.some.injEq] at hc
+      subst hc
+      exact join_head_nws hg.vl a (by unfold vlText at hvl; rw [hvl]; rfl)
+  · intro c hc
+    by_cases hne : tailText p = []
+    · rw [hne, List.append_nil] at hc
+      exact join_last_nws hg.vl c hc
+    · rw [getLast?_append_ne _ _ hne] at hc
+      exact tail_last_nws hg hne c hc
+
+theorem mkPerson_format {p : Person} (hg : PersonGood p) :
+    mkPerson (formatName p) [] [] [] [] [] = .ok (p, false) := by
+  unfold mkPerson
+  simp only [strip_format hg, format_ne_nil hg, ne_eq, not_false_eq_true, if_true, parseName_format hg,
+    splitTex_space_nil, List.append_nil]
+
+theorem personStr_eq_format {p : Person} (hg : PersonGood p) : personStr p = formatName p := by
+  obtain ⟨_, _, _, _, m5⟩ := hg.mem
+  have hv := hg.vl_ne
+  have hjr : jrText p = [] ↔ p.lineage = [] := joinWith_eq_nil_iff (fun t h => (m5 t h).ne_nil)
+  have hfm : fmText p = [] ↔ p.first = [] := by
+    constructor
+    · intro h
+      have := (joinWith_eq_nil_iff (fun t ht => (hg.fm t ht).ne_nil)).1 h
+      simp at this; exact this.1
+    · intro h; unfold fmText; rw [h, hg.first_mid h]; rfl
+  rw [formatName_forms hg]
+  unfold personStr Person.toStr tailText
+  change (if keepsEmptyFirst p = true then
+      joinWith [',', ' '] ([vlText p, jrText p, fmText p].filter (· ≠ [])) ++ [',']
+    else joinWith [',', ' '] ([vlText p, jrText p, fmText p].filter (· ≠ []))) = _
+  by_cases hl : p.lineage = []
+  · have c1 : jrText p = [] := hjr.2 hl
+    by_cases hf : p.first = []
+    · have c2 : fmText p = [] := hfm.2 hf
+      by_cases hkp : keepsEmptyFirst p = true <;> simp [hl, hf, hkp, c1, c2, hv, List.filter, joinWith]
+    · have c2 : fmText p ≠ [] := fun h => hf (hfm.1 h)
+      have hkp : keepsEmptyFirst p = false := by simp [keepsEmptyFirst, hf]
+      simp [hl, hf, hkp, c1, c2, hv, List.filter, joinWith]
+  · have c1 : jrText p ≠ [] := fun h => hl (hjr.1 h)
+    by_cases hf : p.first = []
+    · have c2 : fmText p = [] := hfm.2 hf
+      have hkp : keepsEmptyFirst p = true := by simp [keepsEmptyFirst, hf, hg.first_mid hf, hl]
+      simp [hl, hf, hkp, c1, c2, hv, List.filter, joinWith]
+    · have c2 : fmText p ≠ [] := fun h => hf (hfm.1 h)
+      have hkp : keepsEmptyFirst p = false := by simp [keepsEmptyFirst, hf]
+      simp [hl, hf, hkp, c1, c2, hv, List.filter, joinWith]
+
+theorem mkPerson_parts {p : Person} (hg : ∀ t ∈ personTokens p, TokGood t) :
+    mkPerson [] (partText p.first) (partText p.middle) (partText p.prelast) (partText p.last)
+      (partText p.lineage) = .ok (p, false) := by
+  have h1 : splitTex .space (partText p.first) = p.first :=
+    splitTex_space_join _ (fun t ht => hg t (by simp [personTokens, ht]))
+  have h2 : splitTex .space (partText p.middle) = p.middle :=
+    splitTex_space_join _ (fun t ht => hg t (by simp [personTokens, ht]))
+  have h3 : splitTex .space (partText p.prelast) = p.prelast :=
+    splitTex_space_join _ (fun t ht => hg t (by simp [personTokens, ht]))
+  have h4 : splitTex .space (partText p.last) = p.last :=
+    splitTex_space_join _ (fun t ht => hg t (by simp [personTokens, ht]))
+  have h5 : splitTex .space (partText p.lineage) = p.lineage :=
+    splitTex_space_join _ (fun t ht => hg t (by simp [personTokens, ht]))
+  have hs : strip ([] : Str) = [] := by decide
+  unfold mkPerson
+  simp only [hs, ne_eq, not_true_eq_false, if_false, List.nil_append, h1, h2, h3, h4, h5]
+
+
 end Pybtex.C02
